@@ -128,6 +128,7 @@ class Contract:
         self.cover = d.get("cover", [])
         self.assumed = d.get("assumed", False)  # contract for an external/unverified function: never verified, only used
         self.inline = d.get("inline", [])
+        self.macros = d.get("macros", {})
         self.noinline = set(d.get("noinline", []))
 
 
@@ -237,6 +238,8 @@ class Engine:
         if z3.is_true(g):
             n = self.site_ord.setdefault((kind, where), len([1 for k in self.site_ord if k[0] == kind]))
             self.trivial = getattr(self, "trivial", 0) + 1
+            self.trivial_ids = getattr(self, "trivial_ids", [])
+            self.trivial_ids.append((f"{self.c.prop}/{self.c.qual}/{kind}#{n}", where))
             return
         n = self.site_ord.setdefault((kind, where), len([1 for k in self.site_ord if k[0] == kind]))
         oid = f"{self.c.prop}/{self.c.qual}/{kind}#{n}"
@@ -291,6 +294,9 @@ class Engine:
             return V(t, z, none)
         if t == "none":
             return NONE
+        if isinstance(t, tuple) and t[0] == "ufn":
+            f = z3.Function(name if inp else f"{name}!{next_id()}", *[sort_of(parse_type(x)) for x in t[1]], sort_of(parse_type(t[2])))
+            return V("fn", None, items=("uf", f, t[1], t[2], None), py=name)
         z = z3.Const(name if inp else f"{name}!{next_id()}", I)
         v = V(t, z)
         self.assume_wf(v, opt)
@@ -940,8 +946,8 @@ class Engine:
 
     def flop(self, z, exact_if_int=None):
         """result of a float operation under the contract's float model"""
-        if self.c.float == "exact" or self.st.spec and not self.reveal_float():
-            return vreal(z)
+        if self.c.float == "exact" or self.st.spec:
+            return vreal(z)  # spec arithmetic is exact; the float model is applied to code only (spec writes fl()/rnd() explicitly)
         return vreal(self.fl(z))
 
     def reveal_float(self):
